@@ -199,8 +199,13 @@ pub fn selftest(specs: &[CheckSpec], args: &[String]) -> i32 {
             }
             if bad > 0 { 2 } else { 0 }
         }
+        Some("executor") => {
+            let n: u64 =
+                args.get(1).and_then(|s| s.parse().ok()).unwrap_or(200);
+            e1::selftest_executor(n)
+        }
         _ => {
-            eprintln!("selftest determinism [runs]");
+            eprintln!("selftest determinism|executor [runs]");
             2
         }
     }
